@@ -8,19 +8,21 @@ import (
 	"fmt"
 	"go/token"
 	"go/types"
+	"strings"
 
 	"golang.org/x/tools/go/ssa"
 )
 
 type thread struct {
-	id     int
-	resume chan struct{}
-	done   chan struct{}
-	state  int // 0 runnable, 1 blocked, 2 finished
-	cond   func() bool
-	what   string
-	locks  []*value // mutexes currently held (lock trace)
-	parent *thread  // thread that spawned this one (gets the baton back first)
+	id        int
+	resume    chan struct{}
+	done      chan struct{}
+	state     int // 0 runnable, 1 blocked, 2 finished
+	cond      func() bool
+	what      string
+	locks     []*value // mutexes currently held (lock trace)
+	parent    *thread  // thread that spawned this one (gets the baton back first)
+	pointHits map[string]int
 }
 
 type scheduler struct {
@@ -160,6 +162,11 @@ func (s *scheduler) runOthers() {
 // thread may be chosen (bounded number of preemptions).
 func (s *scheduler) yield(what string) {
 	if !s.symbolic || s.preempt <= 0 {
+		return
+	}
+	// preemption happens only at verifhook.Point boundaries (and wherever a thread
+	// blocks): these are the places a native replay can hold a goroutine
+	if !strings.HasPrefix(what, "point:") && !strings.HasPrefix(what, "Yield@") {
 		return
 	}
 	var cands []*thread
